@@ -57,6 +57,10 @@ pub enum Case {
 
 const PIECES: &[&str] = &[
   "a", "\"", "\\", "\n", "\t", "\r", "\u{0}", "\u{1}", "\u{1f}", "\u{7f}", "\u{2028}", "\u{2029}", "é", "日", "😀", "\u{10ffff}", "/", "</script>", "\u{8}", "\u{c}", " ", "x.js", "\u{feff}", "\\u0041", "'", "./", "../", "src/", "webpack:///", "//", ".",
+  // words of the format itself and JSON literals as *values* (a parser that sniffs the text for a key, or a writer that
+  // special-cases a literal, meets them only here), alone and as a quoted key
+  "sections", "version", "sources", "sourcesContent", "names", "mappings", "file", "sourceRoot", "debugId", "ignoreList",
+  "x_google_ignoreList", "null", "true", "false", "3", "{", "}", "[", "]", ":", ",", "\"sections\":", "\"version\":3",
 ];
 
 fn wild_string() -> BoxedStrategy<String> {
